@@ -56,6 +56,18 @@ theorem dft2_neg (Ny Nx : ℕ) (hy : 0 < Ny) (hx : 0 < Nx) (x : ℕ → ℕ → 
     rw [twiddle_neg _ _ hx, rootPow_neg, rootPow_natmod _ _ hx, ← rootPow_neg]; push_cast; rfl
   rw [tx]
 
+/-- both signs at once: `s = 1` with `sr = 1.0` (inverse transform, dispersion mode) or `s = -1` with
+`sr = -1.0` (forward transform, footprint mode) -/
+def SignPair (s : ℤ) (sr : ℝ) : Prop := (s = 1 ∧ sr = 1.0) ∨ (s = -1 ∧ sr = -1.0)
+
+theorem dft2_sgn (s : ℤ) (sr : ℝ) (hs : SignPair s sr) (Ny Nx : ℕ) (hy : 0 < Ny) (hx : 0 < Nx)
+    (x : ℕ → ℕ → ℂ) (a b : ℕ) :
+    (dft2 RC sr Ny Nx x).get a b =
+      ∑ j ∈ Finset.range Ny, (∑ i ∈ Finset.range Nx, x j i * rootPow Nx (s * ((b : ℤ) * i))) * rootPow Ny (s * ((a : ℤ) * j)) := by
+  rcases hs with ⟨rfl, rfl⟩ | ⟨rfl, rfl⟩
+  · rw [dft2_pos _ _ hy hx]; simp only [one_mul]
+  · rw [dft2_neg _ _ hy hx]; simp only [neg_one_mul]
+
 /-- the position of a slot is its signed frequency modulo `N` -/
 theorem slotPos_cast (N nl a : ℕ) (hadm : Admissible N nl) (ha : a < nl) :
     ((slotPos N nl a : ℕ) : ℤ) = sfreq nl a ∨ ((slotPos N nl a : ℕ) : ℤ) = sfreq nl a + N := by
@@ -96,5 +108,104 @@ theorem sum_over_slots (N nl : ℕ) (hadm : Admissible N nl) (U : ℕ → ℂ) (
   · intro A hA hnot
     simp only [Finset.mem_image, Finset.mem_range, not_exists, not_and] at hnot hA
     rw [hmiss A hA (by rintro ⟨a, ha, rfl⟩; exact hnot a ha rfl), zero_mul]
+
+/-- geometry hypotheses shared by the field-level theorems (all provable from the request by
+`C11.geom_admissible`) -/
+structure GeomOK (g : Geom ℝ) : Prop where
+  ady : Admissible g.nye g.nly
+  adx : Admissible g.nxe g.nlx
+  hdy : g.dly = (g.nye - g.nly) / 2
+  hdx : g.dlx = (g.nxe - g.nlx) / 2
+
+theorem GeomOK.Nx_pos {g : Geom ℝ} (h : GeomOK g) : 0 < g.nxe := lt_of_lt_of_le h.adx.1 h.adx.2.1
+theorem GeomOK.Ny_pos {g : Geom ℝ} (h : GeomOK g) : 0 < g.nye := lt_of_lt_of_le h.ady.1 h.ady.2.1
+
+/-- 1-D window/slot description of `untrunc` along one axis -/
+def untrunc1 (N nl : ℕ) (G : ℕ → ℂ) (A : ℕ) : ℂ :=
+  if (N - nl) / 2 ≤ ifftshiftIdx N A ∧ ifftshiftIdx N A < (N - nl) / 2 + nl
+  then G (fftshiftIdx nl (ifftshiftIdx N A - (N - nl) / 2)) else 0
+
+theorem untrunc1_hit (N nl : ℕ) (hadm : Admissible N nl) (G : ℕ → ℂ) (a : ℕ) (ha : a < nl) :
+    untrunc1 N nl G (slotPos N nl a) = G a := by
+  obtain ⟨⟨w1, w2⟩, e⟩ := untrunc_index_hit N nl a hadm ha
+  unfold untrunc1
+  rw [if_pos ⟨w1, w2⟩, e]
+
+theorem untrunc1_miss (N nl : ℕ) (hadm : Admissible N nl) (G : ℕ → ℂ) (A : ℕ) (hA : A < N)
+    (hno : ¬∃ a, a < nl ∧ slotPos N nl a = A) : untrunc1 N nl G A = 0 := by
+  unfold untrunc1
+  split
+  · rename_i h
+    exfalso
+    obtain ⟨a, ha, hs, _⟩ := untrunc_index_window N nl A hadm hA ⟨h.1, h.2⟩
+    exact hno ⟨a, ha, hs⟩
+  · rfl
+
+/-- the model's 2-D `untrunc` is the composition of the two 1-D ones -/
+theorem untrunc_eq (g : Geom ℝ) (hg : GeomOK g) (T : ℕ → ℕ → ℂ) (A B : ℕ) :
+    untrunc g T A B = untrunc1 g.nye g.nly (fun a => untrunc1 g.nxe g.nlx (fun b => T a b) B) A := by
+  unfold untrunc untrunc1
+  simp only [hg.hdy, hg.hdx]
+  by_cases hy : (g.nye - g.nly) / 2 ≤ ifftshiftIdx g.nye A ∧ ifftshiftIdx g.nye A < (g.nye - g.nly) / 2 + g.nly
+  · by_cases hx : (g.nxe - g.nlx) / 2 ≤ ifftshiftIdx g.nxe B ∧ ifftshiftIdx g.nxe B < (g.nxe - g.nlx) / 2 + g.nlx
+    · rw [if_pos ⟨hy.1, hy.2, hx.1, hx.2⟩, if_pos hy, if_pos hx]
+    · rw [if_neg (by tauto), if_pos hy, if_neg hx]
+      norm_num
+  · rw [if_neg (by tauto), if_neg hy]
+    norm_num
+
+/-- SPECTRAL REPRESENTATION.  The padded-domain field produced from the truncated coefficient table `T`
+is the trigonometric sum over the retained slots, each at its own SIGNED frequency:
+`field[j, i] = Σ_{a<nly} Σ_{b<nlx} T a b · ω_x^{s f(b) i} · ω_y^{s f(a) j}` (`s = +1` dispersion, `−1` footprint) -/
+theorem solver_repr (s : ℤ) (sr : ℝ) (hs : SignPair s sr) (g : Geom ℝ) (hg : GeomOK g) (T : ℕ → ℕ → ℂ) (j i : ℕ) :
+    (dft2 RC sr g.nye g.nxe (untrunc g T)).get j i =
+      ∑ a ∈ Finset.range g.nly, ∑ b ∈ Finset.range g.nlx,
+        T a b * rootPow g.nxe (s * sfreq g.nlx b * i) * rootPow g.nye (s * sfreq g.nly a * j) := by
+  have hNx := hg.Nx_pos
+  have hNy := hg.Ny_pos
+  rw [dft2_sgn s sr hs _ _ hNy hNx]
+  -- note: in `dft2_pos` the OUTPUT index pair is (j, i) and the summation runs over spectrum indices (A, B)
+  simp only [untrunc_eq g hg]
+  -- inner sum over B for fixed A
+  have inner : ∀ A, ∑ B ∈ Finset.range g.nxe,
+      untrunc1 g.nye g.nly (fun a => untrunc1 g.nxe g.nlx (fun b => T a b) B) A * rootPow g.nxe (s * ((i : ℤ) * B))
+      = untrunc1 g.nye g.nly (fun a => ∑ b ∈ Finset.range g.nlx, T a b * rootPow g.nxe (s * sfreq g.nlx b * i)) A := by
+    intro A
+    unfold untrunc1
+    split
+    · have := sum_over_slots g.nxe g.nlx hg.adx
+        (fun B => untrunc1 g.nxe g.nlx (fun b => T (fftshiftIdx g.nly (ifftshiftIdx g.nye A - (g.nye - g.nly) / 2)) b) B)
+        (fun b => T (fftshiftIdx g.nly (ifftshiftIdx g.nye A - (g.nye - g.nly) / 2)) b)
+        (fun B => rootPow g.nxe (s * ((i : ℤ) * B)))
+        (fun b hb => untrunc1_hit g.nxe g.nlx hg.adx _ b hb)
+        (fun B hB hno => untrunc1_miss g.nxe g.nlx hg.adx _ B hB hno)
+      simp only [untrunc1] at this
+      rw [this]
+      apply Finset.sum_congr rfl
+      intro b hb
+      congr 1
+      have := rootPow_slotPos g.nxe g.nlx b hNx hg.adx (Finset.mem_range.mp hb) s i
+      rw [← this]
+      congr 1
+      ring
+    · simp
+  simp only [inner]
+  have outer := sum_over_slots g.nye g.nly hg.ady
+    (fun A => untrunc1 g.nye g.nly (fun a => ∑ b ∈ Finset.range g.nlx, T a b * rootPow g.nxe (s * sfreq g.nlx b * i)) A)
+    (fun a => ∑ b ∈ Finset.range g.nlx, T a b * rootPow g.nxe (s * sfreq g.nlx b * i))
+    (fun A => rootPow g.nye (s * ((j : ℤ) * A)))
+    (fun a ha => untrunc1_hit g.nye g.nly hg.ady _ a ha)
+    (fun A hA hno => untrunc1_miss g.nye g.nly hg.ady _ A hA hno)
+  rw [outer]
+  apply Finset.sum_congr rfl
+  intro a ha
+  rw [Finset.sum_mul]
+  apply Finset.sum_congr rfl
+  intro b _
+  congr 1
+  have := rootPow_slotPos g.nye g.nly a hNy hg.ady (Finset.mem_range.mp ha) s j
+  rw [← this]
+  congr 1
+  ring
 
 end BLDFM.Spec
